@@ -685,6 +685,93 @@ func runC17(r *core.Run) {
 		}
 		return core.Outcome{Class: fmt.Sprintf("j=%.2f", j), Nontrivial: true, Evals: 12}
 	}
+	// Distance in the middle of a history: two sketch OBJECTS live on while sequences are added to them and
+	// distances are asked in between. Distance is a function of what the sketches hold NOW; anything it
+	// keeps per object (a sorted copy, a frozen form, the last result) must follow every Add.
+	type c17DistHist struct {
+		Ops []string `json:"ops"` // "a+<seq>", "b+<seq>", "d" (Distance(a,b)), "r" (Distance(b,a))
+		K   int      `json:"k"`
+		N   int      `json:"n"`
+	}
+	histSeqs := []string{"ACGTAC", "TTGCA", "GGGTCA", "CATCAT"}
+	histDepth := core.Pick(r, 4, 5)
+	r.Bound("distance-histories", fmt.Sprintf("two sketches that start full from ACGTTGCA and AACCGGTT; every sequence of 1..%d operations over {Add one of %v to a, the same to b, Distance(a,b), Distance(b,a)} x (k,n) in {(2,3),(3,4)}", histDepth, histSeqs))
+	core.Clause(r, "distance-histories", core.Opts{Rule: "every operation sequence up to the depth on two live sketch objects; after EVERY Distance the value must equal (<=1e-12) the formula on the brute-force Jaccard of what the two sketches hold at that moment, and Distance of freshly built sketches of the same content; non-trivial = a Distance after an Add after a Distance"},
+		func(emit func(c17DistHist) bool) {
+			var ops []string
+			for _, q := range histSeqs {
+				ops = append(ops, "a+"+q, "b+"+q)
+			}
+			ops = append(ops, "d", "r")
+			for _, kn := range [][2]int{{2, 3}, {3, 4}} {
+				ok := enum.Sequences(len(ops), histDepth, func(sq []int) bool {
+					if len(sq) == 0 || ops[sq[len(sq)-1]][0] != 'd' && ops[sq[len(sq)-1]][0] != 'r' {
+						return true // histories that end in an Add are prefixes of longer ones
+					}
+					o := make([]string, len(sq))
+					for i, x := range sq {
+						o[i] = ops[x]
+					}
+					return emit(c17DistHist{o, kn[0], kn[1]})
+				})
+				if !ok {
+					return
+				}
+			}
+		},
+		func(c c17DistHist) core.Outcome {
+			contA, contB := [][]byte{[]byte("ACGTTGCA")}, [][]byte{[]byte("AACCGGTT")}
+			var fail string
+			evals, dists, interesting := 0, 0, false
+			p := catch(func() {
+				a, b := mash.Sequences(c.N, c.K, contA...), mash.Sequences(c.N, c.K, contB...)
+				addedSince := false
+				for step, op := range c.Ops {
+					switch op[0] {
+					case 'a':
+						mash.Add(a, c.K, []byte(op[2:]))
+						contA = append(contA, []byte(op[2:]))
+						addedSince = dists > 0
+					case 'b':
+						mash.Add(b, c.K, []byte(op[2:]))
+						contB = append(contB, []byte(op[2:]))
+						addedSince = dists > 0
+					default:
+						var d float64
+						if op == "d" {
+							d = mash.Distance(a, b, c.K)
+						} else {
+							d = mash.Distance(b, a, c.K)
+						}
+						evals++
+						dists++
+						interesting = interesting || addedSince
+						va := ref.BottomN(ref.CanonicalKmerHashes(c.K, mash.Seed, contA...), c.N)
+						vb := ref.BottomN(ref.CanonicalKmerHashes(c.K, mash.Seed, contB...), c.N)
+						if len(va) != c.N || len(vb) != c.N {
+							continue // not full: outside the statement
+						}
+						want := ref.MashFromJaccard(ref.SketchJaccard(va, vb), c.K)
+						fresh := mash.Distance(mash.Sequences(c.N, c.K, contA...), mash.Sequences(c.N, c.K, contB...), c.K)
+						if math.Abs(d-want) > 1e-12 {
+							fail = fmt.Sprintf("operation %d (%s) of %v (k=%d, n=%d): Distance = %v, want %v for what the two sketches hold now (freshly built sketches of the same content give %v)", step+1, op, c.Ops, c.K, c.N, d, want, fresh)
+							return
+						}
+					}
+				}
+				if !slices.Equal(a.View(), ref.BottomN(ref.CanonicalKmerHashes(c.K, mash.Seed, contA...), c.N)) || !slices.Equal(b.View(), ref.BottomN(ref.CanonicalKmerHashes(c.K, mash.Seed, contB...), c.N)) {
+					fail = fmt.Sprintf("after %v the sketches no longer hold the bottom-n of their content", c.Ops)
+				}
+			})
+			if p != "" {
+				return core.Failf("history %v (k=%d, n=%d): panic: %s", c.Ops, c.K, c.N, p)
+			}
+			if fail != "" {
+				return core.Failf("%s", fail)
+			}
+			return core.Outcome{Class: fmt.Sprint("distances=", min(dists, 3)), Nontrivial: interesting, Evals: max(1, evals)}
+		})
+
 	core.Clause(r, "distance-laws", core.Opts{Rule: "all ordered pairs of inputs from a pool of 12 x k in {1,2,3} x every n in 1..14 (so that for each input some n is exactly its number of distinct k-mers: sketches that are full without ever having dropped a value); only pairs where both sketches are full: each pair as live sketches, as Frozen() copies and mixed, and each sketch with itself: Distance symmetric, within [0,1], 0 for identical k-mer content, equal (<=1e-12) to min(1,-ln(2j/(1+j))/k) with j computed by brute force from the two bottom-n sets (1 when j=0); non-trivial = all evaluated pairs"},
 		func(emit func(c17Pair) bool) {
 			for _, a := range dpool {
